@@ -280,15 +280,18 @@ def make_scheduled_kdtree():
 
     from scipy.spatial import KDTree as RealKDTree
 
-    class ScheduledKDTree:
+    class ScheduledKDTree(RealKDTree):
+        """A real KD-tree (a subclass, so that it can be handed to any other scipy call, e.g. tree.sparse_distance_matrix(tree, r)) whose query_pairs
+        answers the same pair set in an order the explorer chooses."""
+
         def __init__(self, data, *a, **k):
-            self._tree = RealKDTree(data, *a, **k)
+            super().__init__(data, *a, **k)
             self._data = data
 
         def query_pairs(self, r, *a, **k):
-            return PairList(PAIR_ORDER.order(builtins_sorted(self._tree.query_pairs(r, *a, **k)), self._data, r))
-
-        def __getattr__(self, name):
-            return getattr(self._tree, name)
+            res = super().query_pairs(r, *a, **k)
+            if k.get("output_type", "set") != "set" or not isinstance(res, (set, frozenset)):
+                return res  # another output type was asked for: answered by the real tree as it is
+            return PairList(PAIR_ORDER.order(builtins_sorted(res), self._data, r))
 
     return ScheduledKDTree
